@@ -13,7 +13,7 @@ class SlidingWindowTracker(Tracker):
         assert 0 < k, "The 'window_size' must be greater than zero."
         self.window_k = 0
         self.k = k
-        self.sliding_window = np.array([np.NaN for _ in range(self.k)])
+        self.sliding_window = np.array([np.nan for _ in range(self.k)])
 
     def update(self, value_i: Union[int, float]) -> "Tracker":
         """Adds one value to the Tracker
